@@ -135,7 +135,12 @@ pub struct ParseContext {
     pub macros: Rc<Macro>,
     // messages
     pub messages: Rc<RefCell<Vec<String>>>,
+    // number of files open on the way to this one
+    pub depth: usize,
 }
+
+/// Files including files deeper than this are taken for a file that includes itself
+pub const MAX_INCLUDE_DEPTH: usize = 32;
 
 impl ParseContext {
     pub fn new(
@@ -155,6 +160,7 @@ impl ParseContext {
                 macroses: RefCell::new(hashmap! {}),
             }),
             messages: Rc::new(RefCell::new(vec![])),
+            depth: 0,
         }
     }
 
@@ -227,8 +233,17 @@ pub fn parse_file_internal(context: &ParseContext) -> Result<(), Error> {
         segments,
         macros,
         messages,
+        depth,
     } = context.clone();
     let include_paths = include_paths.borrow_mut();
+
+    if depth > MAX_INCLUDE_DEPTH {
+        bail!(
+            "Cannot read file {} because: files are included more than {} deep",
+            current_path.to_string_lossy(),
+            MAX_INCLUDE_DEPTH
+        );
+    }
 
     let current_path = if !current_path.as_path().exists() {
         let mut new_path = PathBuf::new();
@@ -278,6 +293,7 @@ pub fn parse_file_internal(context: &ParseContext) -> Result<(), Error> {
         segments,
         macros,
         messages,
+        depth,
     };
 
     parse(source.as_str(), &file_context)?;
